@@ -5,6 +5,8 @@ import json
 import os
 import warnings
 
+from fractions import Fraction
+
 import numpy as np
 
 from common import VERIF, dec_float, enc_bool, enc_float, enc_list, errname
@@ -32,6 +34,34 @@ THEOREMS = [
     "Verif.C03.pixel_time_spec",
     "Verif.C03.duration_spec",
     "Verif.C03.sum_over_ranges_eq_image",
+    "Verif.C03.tsMeanRows_split_bounds",
+    "Verif.C03.tsMeanRows_no_overflow",
+    "Verif.C03.rows_below_min_witness",
+    "Verif.C03.pixel_ts_general",
+    "Verif.C03.pixel_ts_no_overflow",
+    "Verif.C03.deltaTs_bounds",
+    "Verif.C03.deltaTs_values",
+    "Verif.C03.line_range_exact_code",
+    "Verif.C03.frame_range_exact_code",
+    "Verif.C03.sum_over_ranges_eq_image_code",
+    "Verif.C03.sum_over_ranges_eq_image_zero",
+    "Verif.C03.sum_over_frame_ranges_eq_image",
+    "Verif.C03.line_ranges_covered",
+    "Verif.C03.sum_over_ranges_longer_channel",
+    "Verif.C03.frame_dead_time_contiguous",
+    "Verif.C03.duration_lines",
+    "Verif.C03.pixel_ts_spec_duration",
+    "Verif.C03.pixel_time_seconds_spec",
+    "Verif.C03.line_time_seconds_spec",
+    "Verif.C03.duration_seconds_spec",
+    "Verif.C03.tsMean_no_overflow_span",
+    "Verif.C03.span_necessary_witness",
+    "Verif.C03.tsMean_floor_split_n",
+    "Verif.C03.line_range_exact_raw_shape",
+    "Verif.C03.kymo_geometry_ranges",
+    "Verif.C03.scan_ts_placement",
+    "Verif.C03.incl_range_exact_inner",
+    "Verif.C03.frame_incl_range_exact_inner",
 ]
 RULE = (
     "corpus (F11 input, split-mode mean witness) + malformed stream (empty wave, nothing used, no boundary, interior "
@@ -51,13 +81,17 @@ RULE = (
     "kymographs whose sample period is so long, or whose start so late, that the per-pixel mean works at the edge of "
     "int64: small scope k<=4, P<=2, <=2 lines, dead<=1, lead<=1 with span*k one step on either side of 2^63, the longest "
     "period that fits, and starts ending at 2^63-1; random quick 400 / thorough 6000 with k<=8, P<=4, <=3 lines). "
-    "Non-trivial: a kymograph/scan case has at least two ranges, or a truncated last line/frame, or delta != dt; a mean "
+    "Deepening round D: op delta (int(1e9/sample_rate) read from the range of a one-sample kymograph: every dt <= 1500 "
+    "(thorough 20000), 10^e+-1, 2^e+-1 up to 1e15, random quick 600 / thorough 20000 up to 1e8 and 1e15); meanrows small "
+    "scope widths 3 and 4 next to every row over four int64 boundary values; the model reports after every mean "
+    "whether all its intermediates fit int64 (must be T for non-negative int64 input) and the number of splits. "
+    "Non-trivial: a delta case has dt>=2; a kymograph/scan case has at least two ranges, or a truncated last line/frame, or delta != dt; a mean "
     "case has two distinct values; a kmean case has k>=2."
 )
 TRUSTED = [
-    "IEEE double division in Lean's Float equals CPython's (delta = int(1e9/(1e9/dt)) is computed by the model in doubles; the theorems hold for every 1 <= delta <= dt and the oracle checks that bound on the implementation's ranges)",
+    "the exact binary64 model rnDiv (exponent from the bit lengths, round-half-even of the scaled quotient; normal range only) describes CPython/NumPy float division, multiplication and int->float conversion: delta = int(1e9/(1e9/dt)) and the seconds values are computed by the model in that arithmetic (kernel-computable; deltaTs_bounds proves 1 <= delta <= dt for dt <= 1e15) and compared on every run with the real code (op c03.delta through Kymo.line_timestamp_ranges, the seconds bit for bit) and with Lean's hardware Float",
     "np.sum of non-negative int64 values whose total fits int64 does not overflow in any summation order (numpy's pairwise order is not modelled; Lemma sublist_sum_bounds covers every sub-sum)",
-    "float64 results (line time, pixel time, duration in seconds) are compared with the model's exact integer nanoseconds within rel 1e-12",
+    "float64 results (line time, pixel time, duration in seconds) agree when the implementation's double is the model's binary64 value bit for bit, or another double within the PROVED bound (1 +- 2^-53)^3 (duration ^5) of the exact integer nanoseconds (so x / 1e9 instead of x * 1e-9 stays green); coverage.seconds_vs_binary64_model counts both kinds",
 ]
 ASSUMPTIONS = [
     "the direct tie to timestamp_mean goes through a private module path (lumicks.pylake.detail.confocal, the anchored place; else any loaded pylake module that still offers the name); when it is out of reach the direct ops answer '?' (ignored by agree/oracle/nontrivial, listed under coverage.private_ties) and the clause stays tied through Kymo.timestamps (op kmean and every kymo/scan case)",
@@ -239,6 +273,15 @@ def impl(case):
         if timestamp_mean is None:
             return [UNSEEN]
         return [_try(lambda: enc_list(timestamp_mean(np.array(case["rows"], dtype=np.int64).reshape(len(case["rows"]), case["w"]), axis=1)))]
+    if op == "delta":
+        # the delta the code adds, read from the public API: a kymograph of one one-sample pixel reports the range
+        # [start, start + delta)
+        def delta():
+            k = build({"op": "kymo", "start": 0, "dt": case["dt"], "P": 1}, [2], [1])
+            (t0, t1), = k.line_timestamp_ranges()
+            return f"{int(t1) - int(t0)}"
+
+        return [_try(delta)]
     iw = wave_of(case)
     counts = counts_of(case, iw)
     cstart, cdata = channel_of(case, counts)
@@ -248,10 +291,13 @@ def impl(case):
             return [k]
         return [_try(lambda: show_ll(k.timestamps))]
     if op == "kymo":
+        # the generated wave itself, compared with the Lean generator geomKymo (the domain kymo_geometry_ranges
+        # quantifies over) - a tie between the two generators, not an observation of the code
+        gen = [enc_list(iw)] if "geom" in case else []
         k = _try(lambda: build(case, iw, counts))
         if isinstance(k, str):
-            return [k] * 7
-        return [
+            return [k] * 7 + gen
+        return gen[:0] + [
             _try(lambda: show_ll(k.timestamps)),
             _try(lambda: show_ranges(k.line_timestamp_ranges())),
             _try(lambda: show_ranges(k.line_timestamp_ranges(include_dead_time=True))),
@@ -259,7 +305,7 @@ def impl(case):
             _try(lambda: enc_float(k.duration)),
             _try(lambda: enc_float(k.pixel_time_seconds)),
             _try(lambda: _sum_over(cstart, case["dt"], cdata, k.line_timestamp_ranges, lambda: k.get_image("green").sum(axis=0))),
-        ]
+        ] + gen
     if op == "scan":
         s = _try(lambda: build(case, iw, counts))
         if isinstance(s, str):
@@ -287,12 +333,19 @@ def impl(case):
     raise ValueError(op)
 
 
+def _geom_op(case, n):
+    g = case["geom"]
+    return f"c03.geom {g['lead']} {g['k']} {g['P']} {g['dead']} {g['lines']} {g.get('tail', 0)} {n}"
+
+
 def ops(case):
     op = case["op"]
     if op == "mean":
         return [f"c03.mean {enc_list(case['a'])}"]
     if op == "meanrows":
         return [f"c03.meanrows {case['w']} [" + ";".join(",".join(str(x) for x in r) for r in case["rows"]) + "]"]
+    if op == "delta":
+        return [f"c03.delta {case['dt']}"]
     iw = wave_of(case)
     counts = counts_of(case, iw)
     cstart, cdata = channel_of(case, counts)
@@ -309,7 +362,7 @@ def ops(case):
             f"c03.kdur {w} {P}",
             f"c03.pt {w}",
             f"c03.ksum {w} {P} {enc_list(counts)} {cstart} {enc_list(cdata)}",
-        ]
+        ] + ([_geom_op(case, len(iw))] if "geom" in case else [])
     if op == "scan":
         P, L = case["P"], case["L"]
         return [
@@ -322,31 +375,69 @@ def ops(case):
     raise ValueError(op)
 
 
-def _close_ns(ia, ma):
-    """implementation: float seconds (bit pattern); model: exact integer nanoseconds"""
+K53 = 2**53
+
+
+def _sec_kind(ia, ma, rounds):
+    """implementation: float seconds (bit pattern); model: "<exact integer nanoseconds> <num>/<den>", the second being
+    the binary64 value of the code's float expression (x * 1e-9, then * lines) as an exact fraction.
+    'exact'  : the implementation's double IS the model's double, bit for bit;
+    'bound'  : it is another double within the PROVED error bound (1 +- 2^-53)^rounds of the exact nanoseconds
+               (pixel_time/line_time_seconds_spec: 3 roundings, duration: 5) - e.g. x / 1e9 instead of x * 1e-9;
+    'off'    : neither (a disagreement)."""
+    parts = ma.split(" ")
+    try:
+        ns = int(parts[0])
+        num, den = (int(x) for x in parts[1].split("/"))
+    except (ValueError, IndexError):
+        return "off"
+    sec = Fraction(dec_float(ia))
+    if sec == Fraction(num, den):
+        return "exact"
+    if ns <= 0:
+        return "off"
+    ratio = sec * 10**9 / ns
+    if Fraction(K53 - 1, K53) ** rounds <= ratio <= Fraction(K53 + 1, K53) ** rounds:
+        return "bound"
+    return "off"
+
+
+def _close_ns(ia, ma, rounds=3):
     if not ia.startswith("b"):
         return ia == ma
-    try:
-        ns = int(ma)
-    except ValueError:
-        return False
-    sec = dec_float(ia)
-    return abs(sec - ns * 1e-9) <= 1e-12 * max(abs(ns) * 1e-9, 1e-300)
+    return _sec_kind(ia, ma, rounds) != "off"
+
+
+def _fits_flag_ok(ma, values):
+    """a TEST of tsMeanRows_no_overflow / pixel_ts_no_overflow on every case: the model reports, after its answer,
+    whether every intermediate integer of its mean fits int64; for non-negative int64 input it must say T"""
+    parts = ma.split(" ")
+    if len(parts) < 3 or not values or min(values) < 0 or max(values) > I64MAX:
+        return True
+    return parts[1] == "T"
 
 
 def agree(case, i, ia, ma):
     op = case["op"]
     if ia == UNSEEN:
         return True  # a private observation that could not be made says nothing about the code
+    if op == "delta":
+        soft, hard = ma.split(" ")  # exact binary64 model (what the theorems are about), Lean's hardware Float
+        return ia == soft and soft == hard
     if op == "mean":
         return ia == ma.split(" ")[0]
     if op == "meanrows":
-        return ia == ma
+        flat = [x for r in case["rows"] for x in r]
+        return ia == ma.split(" ")[0] and _fits_flag_ok(ma, flat)
+    if op == "kmean":
+        return ia == ma.split(" ")[0] and _fits_flag_ok(ma, [case["start"], case["start"] + len(wave_of(case)) * case["dt"]])
     if op == "kymo":
+        if i == 0:
+            return ia == ma.split(" ")[0] and _fits_flag_ok(ma, [case["start"], case["start"] + len(wave_of(case)) * case["dt"]])
         if i == 1:
             return ia == ma.split(" ")[0]  # the model also reports the delta it used
         if i in (3, 4, 5):
-            return _close_ns(ia, ma)
+            return _close_ns(ia, ma, 5 if i == 4 else 3)
         return ia == ma
     if op == "scan":
         if i in (1, 2):
@@ -454,6 +545,13 @@ def oracle(case, ia):
         return None
     if op == "kmean":
         return oracle_kmean(case, ia[0])
+    if op == "delta":
+        # a range [first sample, last sample + delta) contains the last sample and not the next one iff 1 <= delta <= dt
+        try:
+            d = int(ia[0])
+        except ValueError:
+            return f"delta: implementation raised {ia[0]}"
+        return None if 1 <= d <= case["dt"] else f"delta: range stops {d} ns after its last sample (dt = {case['dt']})"
     if op == "mean":
         a = case["a"]
         if a and max(a) - min(a) > I64MAX:
@@ -622,6 +720,8 @@ def nontrivial(case, ia):
         return False
     if op == "kmean":
         return case["geom"]["k"] >= 2 and len(structure(case, wave_of(case))) > 0
+    if op == "delta":
+        return case["dt"] >= 2
     if op == "mean":
         return len(set(case["a"])) >= 2
     if op == "meanrows":
@@ -646,6 +746,8 @@ def tags(case, r):
 
 
 def shrink(case):
+    if case["op"] == "delta":
+        return
     if case["op"] in ("mean",):
         a = case["a"]
         for i in range(len(a)):
@@ -773,6 +875,14 @@ def cases(tier, rng):
         for r2 in itertools.product([1, 4, I64MAX], repeat=2):
             yield {"stream": "small-scope", "op": "meanrows", "w": 2, "rows": [list(r1), list(r2)]}
 
+    # widths 3 and 4 (two split levels; the halves of a width-3 block have different widths), two rows: one row from a
+    # small set next to every row over four int64 boundary values
+    for w_, small in ((3, [[0, 1, 2], [5, 5, 5], [1, 0, I64MAX // 3 + 2]]), (4, [[0, 1, 2, 3], [7, 7, 7, 7], [3, 1, 0, I64MAX // 4 + 1]])):
+        for r1 in small:
+            for r2 in itertools.product([0, 1, I64MAX // 2 + 1, I64MAX], repeat=w_):
+                yield {"stream": "small-scope", "op": "meanrows", "w": w_, "rows": [list(r1), list(r2)]}
+                yield {"stream": "small-scope", "op": "meanrows", "w": w_, "rows": [list(r2), list(r1)]}
+
     # ---- exhaustive small scope: kymographs, truncated at every sample
     dts = (1, 55) if quick else (1, 7, 55, 110)
     rng3 = (1, 2, 3) if quick else (1, 2, 3, 4)
@@ -810,6 +920,19 @@ def cases(tier, rng):
                 yield kmean_case("small-scope", I64MAX - n * dt, dt, lead, k, P, dead, lines)
         for dt in (1, 55):                                             # late starts: the last sample is 2^63-1-dt
             yield kmean_case("small-scope", I64MAX - n * dt, dt, lead, k, P, dead, lines)
+
+    # ---- delta = int(1e9 / sample_rate): every period of a small scope, boundary periods, random periods
+    for dt in range(1, 1501 if quick else 20001):
+        yield {"stream": "small-scope", "op": "delta", "dt": dt}
+    bnd = {10**e + d for e in range(1, 16) for d in (-1, 0, 1)} | {2**e + d for e in range(1, 50) for d in (-1, 0, 1)}
+    bnd |= {12800, 62500000, 10**8, 10**8 - 55, 10**15}
+    for dt in sorted(d for d in bnd if 1 <= d <= 10**15):
+        yield {"stream": "small-scope", "op": "delta", "dt": dt}
+    r = rng.fork("c03-delta")
+    for i in range(600 if quick else 20000):
+        sub = r.fork(i)
+        dt = sub.choice([sub.randint(1, 10**8), int(sub.loguniform(1, 10**8)), sub.randint(1, 10**5) * 55, int(sub.loguniform(10**8, 10**15))])
+        yield {"stream": "random-delta", "op": "delta", "dt": max(1, dt), "subseed": i}
 
     # ---- random regular waves
     N = 1000 if quick else 20000
@@ -925,8 +1048,14 @@ def extra_coverage(results):
     ksplit = {"split": 0, "no-split": 0, "split-below-floor": 0}
     unseen = 0
     sizes = []
+    rows_splits, pixel_splits, delta_op = {}, {}, {}
+    seconds = {"exact": 0, "bound": 0, "off": 0}
     for r in results:
         c = r["case"]
+        m0 = r["model"][0].split(" ") if r.get("model") else []
+        if len(m0) == 3 and c["op"] in ("meanrows", "kmean", "kymo"):
+            d = rows_splits if c["op"] == "meanrows" else pixel_splits
+            d[m0[2]] = d.get(m0[2], 0) + 1
         kinds[c["op"] + "/" + c.get("stream", "?")] = kinds.get(c["op"] + "/" + c.get("stream", "?"), 0) + 1
         for a in r["impl"]:
             if a.endswith("Error"):
@@ -945,6 +1074,10 @@ def extra_coverage(results):
                     fl = sorted([sum(t) // kk for t in ts] + [0] * (len(vals) - len(ts)))
                     ksplit["split-below-floor"] += vals != fl
         elif c["op"] in ("kymo", "scan"):
+            for idx in ((3, 4, 5) if c["op"] == "kymo" else (3,)):
+                if idx < len(r["impl"]) and r["impl"][idx].startswith("b") and idx < len(r.get("model", [])):
+                    kd = _sec_kind(r["impl"][idx], r["model"][idx], 5 if (c["op"] == "kymo" and idx == 4) else 3)
+                    seconds[kd] = seconds.get(kd, 0) + 1
             iw = wave_of(c)
             sizes.append(len(iw))
             px = structure(c, iw)
@@ -953,6 +1086,13 @@ def extra_coverage(results):
                 shape["single" if len(px) <= block else "multi"] += 1
                 shape["truncated" if len(px) % block else "complete"] += 1
             dts["delta=dt-1" if c["dt"] in BAD_DT or int(1e9 / (1e9 / c["dt"])) != c["dt"] else "delta=dt"] += 1
+        elif c["op"] == "delta":
+            try:
+                dk = "delta=dt" if int(r["impl"][0]) == c["dt"] else "delta=dt-1" if int(r["impl"][0]) == c["dt"] - 1 else "other"
+            except ValueError:
+                dk = "error"
+            dkey = ("<=1e8: " if c["dt"] <= 10**8 else ">1e8: ") + dk
+            delta_op[dkey] = delta_op.get(dkey, 0) + 1
         elif c["op"] == "mean" and c["a"]:
             a = c["a"]
             split["split" if (max(a) - min(a)) * len(a) > I64MAX else "no-split"] += 1
@@ -963,6 +1103,10 @@ def extra_coverage(results):
         "acquisition_shapes": shape,
         "mean_modes": split,
         "kmean_modes": ksplit,
+        "delta_op_outcomes": delta_op,
+        "seconds_vs_binary64_model": {"label": "pixel time / line time / duration doubles: bit-exact with the model's binary64 value, or only within the proved (1 +- 2^-53)^3 (duration ^5) of the integer nanoseconds", **seconds},
+        "meanrows_splits_per_row": dict(sorted(rows_splits.items(), key=lambda kv: int(kv[0]))),
+        "pixel_mean_splits_per_pixel": dict(sorted(pixel_splits.items(), key=lambda kv: int(kv[0]))),
         "private_ties": {
             "label": "private names the harness reaches for, and where it found them (unreachable: renamed/moved - the "
                      "direct ops answered '?', the public tie through Kymo.timestamps carries the clause)",
